@@ -284,6 +284,11 @@ func (s *JobSim) Verdict() Verdict {
 		case TBlocked:
 			allOK = false
 			v.TaskStatus[n] = []string{"waiting", "canceled"}
+			if s.canceled {
+				// a pass of the scheduler loop that is in flight while the job is being canceled may still hand a dependent
+				// of a canceled allow_failure task to the runner, which refuses it: reported "error", never run
+				v.TaskStatus[n] = []string{"waiting", "canceled", "error"}
+			}
 		case TWaiting:
 			anyUnlaunched = true
 			allOK = false
